@@ -13,10 +13,11 @@ import (
 // chainEqualityIsNotCoarser: a reload skips replacing a filter chain that "equals" the running one.  The equality
 // functions behind Chain.Equal must therefore never call two different policies equal.  Two shapes make an equality
 // coarser than the data it compares, and are reported wherever they occur in the functions reachable from Chain.Equal:
-//   (a) `if d1 && d2 { return false }` with both conjuncts comparisons between the two operands — a difference in one
-//       part alone no longer makes the values unequal;
-//   (b) a comparison of projections of one field (x.F.M() != y.F.M(), M not itself an equality) — only a part of the
-//       field's value is compared (two prefixes with the same base address and different lengths, …).
+//
+//	(a) `if d1 && d2 { return false }` with both conjuncts comparisons between the two operands — a difference in one
+//	    part alone no longer makes the values unequal;
+//	(b) a comparison of projections of one field (x.F.M() != y.F.M(), M not itself an equality) — only a part of the
+//	    field's value is compared (two prefixes with the same base address and different lengths, …).
 func chainEqualityIsNotCoarser(c *core.Ctx) {
 	const rule = "chain-equality-is-not-coarser"
 	p := c.P
